@@ -26,6 +26,7 @@ if [ ! -d $base/repo ]; then
   git -C /repo worktree add -q --detach $base/repo HEAD || exit 2
 else
   git -C $base/repo checkout -q -- . && git -C $base/repo clean -fdq -e target
+  git -C $base/repo checkout -q --detach $(git -C /repo rev-parse HEAD)      # follow /repo's HEAD
 fi
 if [ "$mode" = "--revert" ]; then
   git -C $base/repo revert --no-commit $rev || exit 2
